@@ -206,7 +206,19 @@ class BlockClient(F.Client):
                 if any(a == ("c", None) for a in v):
                     self.findings.append(("proto-none|%s" % fn.attr,
                                           "%s() is called on a value that can be None" % fn.attr, call))
-        return (st,)
+        return (self.list_effect(call, st),)
+
+    def list_effect(self, call, st):
+        """Emptiness of tracked list variables: X.append(..) makes X non-empty; passing X to a call may fill it."""
+        fn = call.func
+        if isinstance(fn, ast.Attribute) and isinstance(fn.value, ast.Name) and fn.value.id == "content" \
+                and (self.track is None or "content" in self.track) \
+                and fn.attr in ("append", "insert", "appendleft"):
+            return st.set("content", F.TRUTHY)
+        for a in call.args:
+            if isinstance(a, ast.Name) and st.env.get(a.id) == F.FALSY:
+                st = st.set(a.id, F.TOP)
+        return st
 
 
 # ---------------------------------------------------------------------------------------------
@@ -214,7 +226,7 @@ class BlockClient(F.Client):
 # ---------------------------------------------------------------------------------------------
 class ScopeClient(BlockClient):
     def __init__(self, ctx, finfo, inst=None, guard="table_name", extra_track=()):
-        track = {"startcls", "endcls", "obj", guard, "$scope", "$table", "result",
+        track = {"startcls", "endcls", "obj", guard, "$scope", "$table", "result", "content",
                  "match_labels", "match_names", "enable_do_label_construct_hook", "match_name_classes"} | set(extra_track)
         BlockClient.__init__(self, ctx, finfo, inst, track=track)
         self.guard = guard
@@ -324,7 +336,7 @@ def run_scope(ctx, finfo, inst, rule, label, guard="table_name", init_extra=None
 # ---------------------------------------------------------------------------------------------
 class NamesClient(BlockClient):
     def __init__(self, ctx, finfo, inst):
-        track = {"startcls", "endcls", "obj", "match_labels", "match_names", "strict_match_names",
+        track = {"startcls", "endcls", "obj", "match_labels", "match_names", "strict_match_names", "content",
                  "enable_do_label_construct_hook", "match_name_classes", "start_name", "end_name",
                  "found_end", "had_match", "strict_order", "enable_if_construct_hook", "enable_where_construct_hook"}
         BlockClient.__init__(self, ctx, finfo, inst, track=track, names=True)
@@ -466,7 +478,7 @@ class ConsumeClient(BlockClient):
     {empty, nonempty, restored}."""
 
     def __init__(self, ctx, finfo, inst=None, content="content", objvar="obj", extra_track=()):
-        track = {"startcls", "endcls", "obj", "cls", "$obj", "$content", "match_labels", "match_names",
+        track = {"startcls", "endcls", "obj", "cls", "$obj", "$content", "match_labels", "match_names", content,
                  "enable_do_label_construct_hook", "match_name_classes", objvar} | set(extra_track)
         BlockClient.__init__(self, ctx, finfo, inst, track=track)
         self.content = content
@@ -493,7 +505,7 @@ class ConsumeClient(BlockClient):
         d = A.dotted(fn) or ""
         if isinstance(fn, ast.Attribute) and fn.attr == "append" and A.text(fn.value) == self.content \
                 and len(call.args) == 1 and A.text(call.args[0]) == self.objvar:
-            return (st.set("$obj", F.const("stored")).set("$content", F.const("nonempty")),)
+            return (st.set("$obj", F.const("stored")).set("$content", F.const("nonempty")).set(self.content, F.TRUTHY),)
         if isinstance(fn, ast.Attribute) and fn.attr == "restore_reader" and A.text(fn.value) == self.objvar:
             return (st.set("$obj", F.const("restored")),)
         if d.endswith("add_comments_includes_directives") and call.args and A.text(call.args[0]) == self.content:
